@@ -506,7 +506,7 @@ def view_cases(g, add, rng, with_coords=True):
         rr = g.resolution
         add("resolution:" + ("st" if c6[1] == 0 and c6[3] == 0 else "rotated"),
             f"CRes {CFG} {gt} (Ok ({cq(F(rr.x))}, {cq(F(rr.y))}))", ("res", gt))
-    for _ in range(2):
+    for _ in range(1):
         p = (F(rng.randint(-4, 2 * nx + 4), 2), F(rng.randint(-4, 2 * ny + 4), 2))
         w = g.pix2wld(float(p[0]), float(p[1]))
         add("pix2wld", f"CP2W {gt} {cpt(p)} {cpt((F(w[0]), F(w[1])))}", ("p2w", gt, p))
@@ -550,7 +550,7 @@ def gen_cases(out, tier):
                 view_cases(g2, add, rng)
 
     # F18 family, systematically: every int index on small boxes
-    for ny, nx in [(1, 1), (1, 5), (4, 1), (3, 4), (10, 20)]:
+    for ny, nx in [(1, 1), (1, 5), (4, 1), (3, 4)] + ([] if tier == "quick" else [(10, 20)]):
         g = mk_gbox({"shape": [ny, nx], "affine": ["2", "0", "10", "0", "-2", "40"], "crs": "epsg:3857"})
         for i in range(-ny - 1, ny + 1):
             step(g, ["getitem", i])
@@ -559,7 +559,7 @@ def gen_cases(out, tier):
             step(g, ["getitem", enc_sl((slice(None), j))])
             step(g, ["getitem", enc_sl((-1, j))])
 
-    n_chains = 260 if tier == "quick" else 2600
+    n_chains = 150 if tier == "quick" else 2600
     for k in range(n_chains):
         e, kind = gen_gbox_enc(rng)
         g = mk_gbox(e)
@@ -581,7 +581,7 @@ def gen_cases(out, tier):
             view_cases(g, add, rng, with_coords=max(g.shape) <= 24)
 
     # GCP geoboxes: the (shape, _affine) bookkeeping of gcp.py, lock-step, and the affine oracle
-    for k in range(60 if tier == "quick" else 600):
+    for k in range(40 if tier == "quick" else 600):
         e, kind = gen_gbox_enc(rng)
         e["affine"] = [fs(v) for v in gen_small_affine(rng)]
         M6, _ = gen_affine(rng)
@@ -864,6 +864,11 @@ def p_views(genc, seed=0):
         if (F(rr.x), F(rr.y)) != (A[0], A[4]):
             msgs.append(f"resolution {rr} is not the pixel step ({A[0]},{A[4]})")
     else:
+        try:
+            g.coordinates
+            msgs.append("coordinates of a rotated / sheared grid did not raise ValueError")
+        except ValueError:
+            pass
         r_ = res_exact(A)
         if r_ is not None:
             rr = g.resolution
@@ -985,7 +990,7 @@ def search(out, tier):
     for rp in core.corpus(ID):
         run(rp["predicate"], rp["args"])
 
-    n = 500 if tier == "quick" else 5000
+    n = 400 if tier == "quick" else 5000
     for k in range(n):
         e, kind = gen_gbox_enc(rng)
         g = mk_gbox(e)
